@@ -8,7 +8,10 @@
  3. code -> spec: hook-H1 traces of random larger grids (paired with their circular shift) validated by
     WatershedTrace.tla step by step, with the declarative post-condition and shift-equivariance evaluated by
     TLC on the recorded outputs.
+ 4. code -> spec on executions nobody here chose: the repository's own partition tests are run under the hooks and every
+    distinct call (floating-point spectra, 25x24, ihmax=100) is validated by WatershedTrace in level mode.
 """
+import os
 import numpy as np
 
 from harness import ws
@@ -167,10 +170,96 @@ def run(ctx):
         if cases:
             ctx.sample({"kind": "code->spec trace", "shape": cases[0][:3], "e": cases[0][3],
                         "events": [e["ev"] for e in events[0]][:12], "labels": res[0][0]}, cap=4)
+    # ---- 4: executions nobody in /verif chose: the repository's own partition tests and the sample spectra, run under the hooks.
+    # Their inputs are floating-point, so WatershedTrace runs in level mode: the recorded level map is the input, flooding is
+    # validated exactly, sweeps against SweepRel, the result against the declarative post-condition.
+    repo_test_traces(ctx)
     ctx.assume("inputs are integer-valued (float32-exact); inputs whose exact level quotient is a half-integer are "
                "excluded unless (ihmax-1)/(zmax-zmin) is dyadic (C round() vs exact arithmetic)")
     ctx.assume("TLC's transcription is bound to the C code by exact output equality on every enumerated input and by "
                "per-level intermediate-state equality on recorded traces")
+
+
+def _run_repo_tests(trace, tests):
+    import contextlib
+    import io
+    os.environ["WAVESPECTRA_VERIF"] = "1"
+    os.environ["WAVESPECTRA_VERIF_TRACE"] = trace
+    import pytest
+    from harness.core import REPO
+    os.chdir(REPO)
+    buf = io.StringIO()
+    with contextlib.redirect_stdout(buf), contextlib.redirect_stderr(buf):
+        rc = pytest.main(["-q", "-p", "no:cacheprovider", "-x"] + tests)
+    return int(rc), buf.getvalue()[-1500:]
+
+
+def repo_test_traces(ctx):
+    from harness.core import BUILD, run_forked, MachineryError
+    os.makedirs(os.path.join(BUILD, "traces"), exist_ok=True)
+    trace = os.path.join(BUILD, "traces", "repo-tests-%d.ndjson" % os.getpid())
+    if os.path.exists(trace):
+        os.unlink(trace)
+    tests = ["tests/test_partition.py"]
+    try:
+        kind, val = run_forked(_run_repo_tests, trace, tests, timeout=1500)
+        if kind == "crash":
+            ctx.violation({"where": "process", "kind": "crash", "stage": "repo tests under hooks"}, "the repository's partition tests crashed under the hooks: %s" % val)
+            return
+        rc, tail = val
+        if rc != 0:
+            # the tests themselves are not this check's oracle; their executions are still validated below
+            ctx.note("repo_partition_tests_rc", rc)
+        calls = ws.split_events(trace) if os.path.exists(trace) else []
+    finally:
+        if os.path.exists(trace):
+            os.unlink(trace)
+    if not calls:
+        raise MachineryError("the repository's partition tests produced no H1 events (hooks not compiled in?): %s" % (val,))
+    distinct = {}
+    for c in calls:
+        imi = next((ev["arr"] for ev in c if ev["ev"] == "imi"), ())
+        distinct.setdefault((c[0]["a"], c[0]["b"], c[0]["c"], tuple(imi)), c)
+    items = list(distinct.items())
+    ctx.note("repo_test_calls", len(calls))
+    ctx.note("repo_test_distinct_level_maps", len(items))
+    if ctx.quick:
+        ctx.rng.shuffle(items)
+        items = items[:12]
+    groups, index = {}, {}
+    for i, (k, c) in enumerate(items):
+        groups.setdefault(k[:3], []).append(ws.level_trace_lines(i, c))
+        index[i] = k
+        ctx.case(("repo-test",) + k[:3] + (hash(k[3]),), True)
+    # binding check: a sweep that gives a watershed pixel a label none of its neighbours has must be rejected
+    k0, c0 = items[0]
+    bad = ws.level_trace_lines(len(items), c0)
+    sw = [ln for ln in bad if ln["ev"] == "sweep"]
+    lv = [ln for ln in bad if ln["ev"] == "level"]
+    corrupted = False
+    if sw and lv:
+        before = lv[-1]["arr"]
+        for n, v in enumerate(before):
+            if v == 0:
+                sw[0]["arr"] = list(sw[0]["arr"])
+                sw[0]["arr"][n] = max(before) + 1
+                corrupted = True
+                break
+    if corrupted:
+        groups.setdefault(k0[:3], []).append(bad)
+    acc, rej = ws.validate_traces(ctx, groups, checkpost=True, label="repo tests (level mode)")
+    for shape, tid, clause, line in rej:
+        if tid == len(items):
+            continue
+        ctx.violation({"where": "trace", "clause": clause, "shape": list(shape[:2]), "ihmax": shape[2], "source": "repo-tests"},
+                      "a partition call made by the repository's own tests is rejected by WatershedTrace (level mode) at clause '%s' (line %d)" % (clause, line),
+                      {"shape": list(shape)})
+    if corrupted:
+        if not any(tid == len(items) and clause == "sweep-relation" for _, tid, clause, _ in rej):
+            raise MachineryError("level-mode trace validation accepted a corrupted sweep (binding lost)")
+        acc -= 0
+    ctx.replayed(acc)
+    ctx.note("repo_test_traces_validated", acc)
 
 
 def replay(ctx, rep):
